@@ -379,9 +379,10 @@ func (r *Run) writeEvidence(units []*Unit, results []*ObResult, discharged, viol
 		"wall_s":      time.Since(r.Start).Seconds(),
 		"violations":  violations,
 		"coverage": map[string]interface{}{
-			"obligations":  len(results),
+			"obligations":  len(results) - kn,
 			"discharged":   discharged,
 			"known_findings": kn,
+			"known_findings_note": "obligations listed in /verif/known_findings.json are reported as KNOWN-FINDING, are not counted in 'obligations' and are not claimed proved",
 			"checker_cmd":  fmt.Sprintf("bin/jvc check %s --tier %s  (VC generation over go/ssa of /repo/jen; z3-new 5.1.0 | z3 4.8.12 | cvc5 1.0 raced per obligation)", r.Prop, r.Tier),
 			"trusted_base": sortedKeys(trusted),
 			"functions_under_contract": fnames,
